@@ -14,6 +14,7 @@ func bytesReader(b []byte) io.Reader { return bytes.NewReader(b) }
 // Checks is the registry used by cmd/seqw.
 var Checks = map[string]vk.Check{
 	"C20": C20,
+	"C08": C08Reader,
 	"C17": C17,
 	"C05": C05,
 	"C14": C14,
